@@ -7,6 +7,7 @@
 namespace vh
 {
 using namespace multitensor;
+std::string g_tmp_path;
 
 // ------------------------------------------------------------------ GRAPH
 template <class vertex_t, class direction_t, class weight_t>
@@ -304,7 +305,6 @@ void do_layout(Toks &tk, std::ostream &os)
     }
 }
 // ------------------------------------------------------------------ WAFF: write_affinity_file on a position-encoded vector
-std::string g_tmp_path;
 void do_waff(Toks &tk, std::ostream &os)
 {
     std::string id = "W " + tk.tok();
@@ -335,6 +335,65 @@ void do_waff(Toks &tk, std::ostream &os)
     }
     std::remove(g_tmp_path.c_str());
 }
+// ------------------------------------------------------------------ PARSE / RAFF: the front end's readers on file bytes
+static void write_hex_file(const std::string &path, const std::string &hex)
+{
+    std::ofstream f(path, std::ios::binary);
+    for (size_t i = 0; i + 1 < hex.size(); i += 2)
+        f.put((char)std::stoi(hex.substr(i, 2), nullptr, 16));
+}
+void do_parse(Toks &tk, std::ostream &os)
+{
+    std::string id = "P " + tk.tok();
+    std::string hex = tk.p < tk.t.size() ? tk.tok() : "";
+    write_hex_file(g_tmp_path, hex);
+    std::vector<size_t> s, e, w;
+    try
+    {
+        read_adjacency_data(boost::filesystem::path(g_tmp_path), s, e, w);
+        os << id << " OK\n";
+        os << id << " starts";
+        for (auto x : s)
+            os << " " << x;
+        os << "\n" << id << " ends";
+        for (auto x : e)
+            os << " " << x;
+        os << "\n" << id << " weights";
+        for (auto x : w)
+            os << " " << x;
+        os << "\n";
+    }
+    catch (const std::exception &ex)
+    {
+        os << id << " ERR\n";
+    }
+    std::remove(g_tmp_path.c_str());
+}
+void do_raff(Toks &tk, std::ostream &os)
+{
+    std::string id = "A " + tk.tok();
+    bool assort = tk.integer() == 1;
+    size_t K = (size_t)tk.integer(), L = (size_t)tk.integer(), expk = (size_t)tk.integer();
+    std::string hex = tk.p < tk.t.size() ? tk.tok() : "";
+    write_hex_file(g_tmp_path, hex);
+    std::vector<double> w(assort ? K * L : K * K * L);
+    for (size_t p = 0; p < w.size(); p++)
+        w[p] = -(double)p - 0.5;
+    try
+    {
+        read_affinity_data(boost::filesystem::path(g_tmp_path), assort, w, expk);
+        os << id << " OK";
+        for (double x : w)
+            os << " " << hx(x);
+        os << "\n";
+    }
+    catch (const std::exception &ex)
+    {
+        os << id << " ERR\n";
+    }
+    std::remove(g_tmp_path.c_str());
+}
+
 // ------------------------------------------------------------------ RNG: the reference stream of the library's generator type
 void do_rng(Toks &tk, std::ostream &os)
 {
@@ -393,6 +452,10 @@ int main(int argc, char **argv)
                 vh::do_e2e(tk, buf);
             else if (c == "LAYOUT")
                 vh::do_layout(tk, buf);
+            else if (c == "PARSE")
+                vh::do_parse(tk, buf);
+            else if (c == "RAFF")
+                vh::do_raff(tk, buf);
             else if (c == "RNG")
                 vh::do_rng(tk, buf);
             else if (c == "WAFF")
